@@ -254,6 +254,9 @@ def _scenario(c, inst):
             evstate["n"] = 0
             with patched(ds, "handle_events", events_stub):
                 r = run(a.integrate, events=[ev], callback=[spans.cap_callback(c, cap, kind)])
+            if r[0] == "exc":
+                from .events_common import oracle_interface_mismatch
+                oracle_interface_mismatch(getattr(r[1], "__cause__", None))      # (the stub no longer fits handle_events' interface: inconclusive)
         elif op == "F":
             rhs.base.fault_at = len(rhs.base.calls) + 1
             r = run(a.integrate, callback=[spans.cap_callback(c, cap, kind)])
